@@ -2741,18 +2741,30 @@ impl Gen {
         }
     }
 
-    fn json_body(&mut self, seeds: &[Value]) -> (Vec<u8>, String) {
+    /// `cheap`: the time governor asks for inputs that are unlikely to be
+    /// accepted (no valid seed, more syntax-level damage).
+    fn json_body(&mut self, seeds: &[Value], cheap: bool) -> (Vec<u8>, String) {
         let seed = self.rng.pick(seeds);
-        if self.rng.chance(1, 16) {
+        if !cheap && self.rng.chance(1, 16) {
             return (seed.to_string().into_bytes(), "json-valid".into())
         }
-        (mutate_json(&mut self.rng, seed), "json-mutated".into())
+        let b = mutate_json(&mut self.rng, seed);
+        if cheap && self.rng.chance(1, 2) {
+            return (damage_json_text(&mut self.rng, b), "json-damaged".into())
+        }
+        (b, "json-mutated".into())
     }
 
-    fn xml_body(&mut self, seeds: &[Vec<u8>]) -> (Vec<u8>, String) {
+    fn xml_body(&mut self, seeds: &[Vec<u8>], cheap: bool) -> (Vec<u8>, String) {
         let seed = self.rng.pick(seeds);
-        if self.rng.chance(1, 16) { return (seed.clone(), "xml-valid".into()) }
-        (mutate_xml(&mut self.rng, seed), "xml-mutated".into())
+        if !cheap && self.rng.chance(1, 16) {
+            return (seed.clone(), "xml-valid".into())
+        }
+        let b = mutate_xml(&mut self.rng, seed);
+        if cheap && self.rng.chance(1, 3) {
+            return (mutate_raw(&mut self.rng, &b), "xml-damaged".into())
+        }
+        (b, "xml-mutated".into())
     }
 
     /// A protocol message. `cheap`: nothing that makes krill sign a reply.
@@ -2829,58 +2841,58 @@ impl Gen {
             E::Rfc8181 => (vec![self.handle(EVIL)],
                            self.cms(cx, &s.cms8181, &s.xml["msg8181"], cheap)),
             E::RoutesUpdate | E::RoutesTry | E::RoutesDryrun => {
-                (vec![self.handle(CHILD)], self.json_body(&s.json["routes"]))
+                (vec![self.handle(CHILD)], self.json_body(&s.json["routes"], cheap))
             }
             E::RoutesSuggest => {
-                (vec![self.handle(CHILD)], self.json_body(&s.json["resource_set"]))
+                (vec![self.handle(CHILD)], self.json_body(&s.json["resource_set"], cheap))
             }
             E::AspasUpdate => (vec![self.handle(CHILD)],
-                               self.json_body(&s.json["aspas"])),
+                               self.json_body(&s.json["aspas"], cheap)),
             E::AspasAs => {
                 let c = if self.rng.chance(4, 5) { "AS65001".to_string() }
                         else { self.rng.pick(ASN_STRS).to_string() };
-                (vec![self.handle(CHILD), c], self.json_body(&s.json["aspas_as"]))
+                (vec![self.handle(CHILD), c], self.json_body(&s.json["aspas_as"], cheap))
             }
             E::Bgpsec => (vec![self.handle(CHILD)],
-                          self.json_body(&s.json["bgpsec"])),
+                          self.json_body(&s.json["bgpsec"], cheap)),
             E::ChildAdd => (vec![self.handle(PARENT)],
-                            self.json_body(&s.json["child_add"])),
-            E::TaChildAdd => (vec![], self.json_body(&s.json["child_add"])),
+                            self.json_body(&s.json["child_add"], cheap)),
+            E::TaChildAdd => (vec![], self.json_body(&s.json["child_add"], cheap)),
             E::ChildUpdate => {
                 let c = if self.rng.chance(1, 3) { EVIL } else { CHILD };
                 (vec![self.handle(PARENT), self.handle(c)],
-                 self.json_body(&s.json["child_update"]))
+                 self.json_body(&s.json["child_update"], cheap))
             }
             E::ChildImport => (vec![self.handle(PARENT), self.handle("imported")],
-                               self.json_body(&s.json["child_import"])),
+                               self.json_body(&s.json["child_import"], cheap)),
             E::ParentAdd => {
                 let over = match self.rng.below(4) {
                     0 => String::new(), 1 => self.handle("other"),
                     _ => PARENT.to_string() };
                 let body = if self.rng.chance(1, 2) {
-                    self.json_body(&s.json["parents"])
-                } else { self.xml_body(&s.xml["parent_response"]) };
+                    self.json_body(&s.json["parents"], cheap)
+                } else { self.xml_body(&s.xml["parent_response"], cheap) };
                 (vec![self.handle(CHILD), over], body)
             }
             E::RepoUpdate | E::TaRepoUpdate => {
                 let body = if self.rng.chance(1, 2) {
-                    self.json_body(&s.json["repo"])
-                } else { self.xml_body(&s.xml["repository_response"]) };
+                    self.json_body(&s.json["repo"], cheap)
+                } else { self.xml_body(&s.xml["repository_response"], cheap) };
                 (vec![self.handle(CHILD)], body)
             }
-            E::PublisherAdd => (vec![], self.json_body(&s.json["publishers"])),
-            E::PublisherXml => (vec![], self.xml_body(&s.xml["publisher_request"])),
+            E::PublisherAdd => (vec![], self.json_body(&s.json["publishers"], cheap)),
+            E::PublisherXml => (vec![], self.xml_body(&s.xml["publisher_request"], cheap)),
             E::ChildReqXml => (vec![self.handle(PARENT)],
-                               self.xml_body(&s.xml["child_request"])),
-            E::PubdDelete => (vec![], self.json_body(&s.json["pubd_delete"])),
-            E::PubdInit => (vec![], self.json_body(&s.json["pubd_init"])),
-            E::BulkImport => (vec![], self.json_body(&s.json["bulk_import"])),
-            E::CaInit => (vec![], self.json_body(&s.json["ca_init"])),
+                               self.xml_body(&s.xml["child_request"], cheap)),
+            E::PubdDelete => (vec![], self.json_body(&s.json["pubd_delete"], cheap)),
+            E::PubdInit => (vec![], self.json_body(&s.json["pubd_init"], cheap)),
+            E::BulkImport => (vec![], self.json_body(&s.json["bulk_import"], cheap)),
+            E::CaInit => (vec![], self.json_body(&s.json["ca_init"], cheap)),
             E::TaSignerAdd | E::TaSignerUpdate => {
-                (vec![], self.json_body(&s.json["ta_signer_info"]))
+                (vec![], self.json_body(&s.json["ta_signer_info"], cheap))
             }
             E::TaSignerResponse => {
-                (vec![], self.json_body(&s.json["ta_signer_response"]))
+                (vec![], self.json_body(&s.json["ta_signer_response"], cheap))
             }
             E::Notation => {
                 let kind = *self.rng.pick(&["roa_payload", "roa_payload",
@@ -3259,34 +3271,6 @@ fn worker(args: &Args, r: &mut Report) -> Result<(), String> {
     util::copy_dir(&dir.join("data"), &snap.join("data")).map_err(|e| e.to_string())?;
     util::copy_dir(&dir.join("repo"), &snap.join("repo")).map_err(|e| e.to_string())?;
     r.note("setup_s", json!(t_setup.elapsed().as_secs_f64()));
-    if args.extra.contains_key("bench") {
-        let k = &w.krill;
-        let t = Instant::now();
-        for _ in 0..100 { let _ = w.publisher_files(); }
-        eprintln!("files {:?}", t.elapsed() / 100);
-        let t = Instant::now();
-        for _ in 0..100 { for ca in w.ca_handles() {
-            let c = k.ca_manager().get_ca(&h(&ca)).unwrap();
-            let _ = serde_json::to_value(c.as_ca_info()).unwrap(); } }
-        eprintln!("ca_info {:?}", t.elapsed() / 100);
-        let t = Instant::now();
-        for _ in 0..100 { for ca in w.ca_handles() {
-            let c = k.ca_manager().get_ca(&h(&ca)).unwrap();
-            let _ = serde_json::to_value(c.configured_roas()).unwrap();
-            let _ = serde_json::to_value(c.aspas_definitions_show()).unwrap();
-            let _ = serde_json::to_value(c.bgpsec_definitions_show()).unwrap(); } }
-        eprintln!("roas etc {:?}", t.elapsed() / 100);
-        let t = Instant::now();
-        for _ in 0..100 { let p = k.ca_manager().get_trust_anchor_proxy().unwrap();
-            let _ = serde_json::to_value(&*p).unwrap(); }
-        eprintln!("proxy {:?}", t.elapsed() / 100);
-        let t = Instant::now();
-        for _ in 0..100 { let _ = k.repo_manager().repo_stats(); }
-        eprintln!("repo_stats {:?}", t.elapsed() / 100);
-        let t = Instant::now();
-        for _ in 0..100 { let _ = digest_parts(&w); }
-        eprintln!("digest {:?}", t.elapsed() / 100);
-    }
     r.note("class_name", json!(seeds.class_name));
     let mut cx = Ctx {
         cfg: w.cfg.clone(), w: Some(w), snap, signer, seeds,
@@ -3332,11 +3316,13 @@ fn worker(args: &Args, r: &mut Report) -> Result<(), String> {
     let mut queue: VecDeque<E> = ALL_ENTRIES.iter().copied()
         .filter(|e| !avoid.contains(e.name())).collect();
     while r.elapsed_s() < loop_end && j.n < max_inputs {
-        let over = slow.as_secs_f64() > 0.42 * t_loop.elapsed().as_secs_f64()
-            && t_loop.elapsed() > Duration::from_secs(2);
+        let frac = slow.as_secs_f64() / t_loop.elapsed().as_secs_f64().max(0.001);
+        let warm = t_loop.elapsed() > Duration::from_secs(2);
+        let over = warm && frac > 0.40;
+        let far_over = warm && frac > 0.65;
         let (entry, cheap) = if let Some(e) = queue.pop_front() { (e, false) }
-            else if over { (CHEAP[g.rng.weighted(&cheap_w)], true) }
-            else { (ALL_ENTRIES[g.rng.weighted(&weights)], false) };
+            else if far_over { (CHEAP[g.rng.weighted(&cheap_w)], true) }
+            else { (ALL_ENTRIES[g.rng.weighted(&weights)], over) };
         if over { r.count("governed_picks", 1) }
         let tg = Instant::now();
         let inp = g.input(&cx, entry, cheap);
